@@ -43,6 +43,36 @@ def concrete(setting, kind, dirs):
     raise KeyError(setting)
 
 
+def bad_value(setting, idx, dirs):
+    """A malformed value for the setting; several kinds in rotation (input construction)."""
+    if setting == "root":
+        k = idx % 4
+        if k == 1:      # an existing regular file
+            p = os.path.join(dirs["files"], "not-a-dir.txt")
+            open(p, "w").write("x")
+            return p
+        if k == 2:      # a device
+            return "/dev/null"
+        if k == 3:      # a FIFO
+            p = os.path.join(dirs["files"], "fifo")
+            os.mkfifo(p)
+            return p
+        return BAD["root"]
+    alt = {"client-whitelist": ["999.1.2.3", "10.0.0.0/33", "10.0.0.9-10.0.0.1", "10.0.0.0/255.0.255.0"],
+           "max-clients": ["many", "1.5", "99999999999999999999"],
+           "read-timeout": ["soon", "10", "5 minutes"],
+           "listen-addr": ["256.0.0.1:x", "127.0.0.1:99999"]}
+    if setting in alt:
+        return alt[setting][idx % len(alt[setting])]
+    return BAD[setting]
+
+
+# a second, harmless setting given along with the one under test (every other case): settings must not disable each other
+COMPANION = {"max-clients": ("client-whitelist", "127.0.0.1-127.0.0.9"), "client-whitelist": ("max-clients", "6"),
+             "read-timeout": ("max-clients", "6"), "allow-write": ("read-timeout", "5m"), "root": ("allow-write", "true"),
+             "debug": ("max-clients", "6"), "json-log": ("client-whitelist", "127.0.0.0/8")}
+
+
 def run_case(binary, proto, scratch, idx, case):
     setting, kind = case["setting"], case["kind"]
     base = os.path.join(scratch, "case%d" % idx)
@@ -52,15 +82,28 @@ def run_case(binary, proto, scratch, idx, case):
     for name, d in (("markerA.txt", "rootA"), ("markerB.txt", "rootB"), ("cwd.txt", "cwd")):
         open(os.path.join(dirs[d], name), "w").write(name)
     vals = concrete(setting, kind, dirs)
-    vals["BAD"] = BAD[setting]
+    vidx = case.get("variant", idx)      # which malformed value / companion: fixed per case, so that a confirmation run repeats it
+    vals["BAD"] = bad_value(setting, vidx, dirs)
     vals["EMPTY"] = ""
     args_global, args_server = [], []
     env = {"HOME": dirs["home"], "XDG_CONFIG_HOME": dirs["xdg"]}
     if kind == "nohome":
         env = {"HOME": "", "XDG_CONFIG_HOME": ""}
+    comp = COMPANION.get(setting) if (vidx % 2 == 1 and kind not in ("malformed",)) else None
+    comp_ini = ""
+    if comp:
+        how = ["flag", "env", "ini"][(vidx // 2) % 3]
+        if how == "ini" and not any(a["ch"] in ("configflag", "configenv", "cwdini", "userini") for a in case["assign"]):
+            how = "env"
+        if how == "flag":
+            args_server.append("--%s=%s" % comp)
+        elif how == "env":
+            env["PS3NETSRV_" + comp[0].upper().replace("-", "_")] = comp[1]
+        else:
+            comp_ini = "%s = %s\n" % comp
     for a in case["assign"]:
         ch, v = a["ch"], vals[a["v"]]
-        ini = "[server]\n%s = %s\n" % (setting, v)
+        ini = "[server]\n%s = %s\n%s" % (setting, v, comp_ini)
         if ch == "flag":
             args_server.append("--%s=%s" % (setting, v))
         elif ch == "env":
@@ -86,7 +129,7 @@ def run_case(binary, proto, scratch, idx, case):
         fixed.append("--json-log")
     wait_listen = setting != "listen-addr"
     s = binsrv.Server(binary, args_global + ["server"] + fixed + args_server, env=env, cwd=dirs["cwd"], wait_listen=wait_listen, timeout=6.0)
-    obs = {"ev": "Start", "setting": setting, "kind": kind, "assign": case["assign"], "observed": "?", "detail": ""}
+    obs = {"ev": "Start", "setting": setting, "kind": kind, "assign": case["assign"], "observed": "?", "detail": "", "companion": list(comp) if comp else []}
     try:
         if setting == "listen-addr":
             time.sleep(0.8)
@@ -220,6 +263,8 @@ def run(tier, seed, replay=None):
         # the default listen address is a fixed port: that single case cannot run beside others
         cases = [c for c in cases if not (c["setting"] == "listen-addr" and c["kind"] == "default")]
         rng.shuffle(cases)
+        for i, c in enumerate(cases):
+            c.setdefault("variant", i)
         with concurrent.futures.ThreadPoolExecutor(max_workers=12) as ex:
             obs = list(ex.map(lambda ic: run_case(binary, proto, scratch, ic[0], ic[1]), enumerate(cases)))
         todo = list(zip(cases, obs))
@@ -255,6 +300,8 @@ def run(tier, seed, replay=None):
         rep.cov["rule"] = ("TLC enumerates: each of the 9 observable settings x each of the 6 channels alone, each setting x (flag, other channel) with "
                            "conflicting values, each security-relevant setting x each channel with a malformed value, defaults; every case starts the real "
                            "binary in a private HOME / XDG_CONFIG_HOME / cwd and probes the effect (served directory, bound port, mkdir, source address, "
-                           "third client, idle cut time, DEBUG line, JSON log line, pprof endpoint)")
+                           "third client, idle cut time, DEBUG line, JSON log line, pprof endpoint); malformed values rotate over several kinds (for root: "
+                           "missing path, regular file, device, FIFO); every other case carries a second, harmless setting through flag / "
+                           "environment / the same INI file, which must not change the effect of the first")
         rep.cov["samples"] = [obs[0], obs[1]]
     return rep.finish()
